@@ -192,6 +192,7 @@ TNextX ==
      \/ (SvOfUpdate /\ UNCHANGED qvars)
      \/ (Sync /\ Track(Ev.t, H) /\ UNCHANGED <<H, QV>>)
      \/ (Nondet /\ UNCHANGED qvars)
+     \/ (Crash /\ UNCHANGED qvars)
      \/ QLocal
      \/ QSkip
      \/ Unquote
